@@ -169,7 +169,17 @@ func buildModel(z *dohfake.Zone, o originSpec, plainPort int) *model {
 // priority; ties may be walked in any order, so both outcomes are possible
 // when a tie group mixes records that list h3 with usable ones that do not.
 func decide1(svc []*dohfake.HTTPS) (h3, notH3 bool) {
-	s := append([]*dohfake.HTTPS{}, svc...)
+	return decideOver(svc, nil)
+}
+
+// decideOver: decide1 with the records for which skip reports true left out.
+func decideOver(svc []*dohfake.HTTPS, skip func(*dohfake.HTTPS) bool) (h3, notH3 bool) {
+	var s []*dohfake.HTTPS
+	for _, h := range svc {
+		if skip == nil || !skip(h) {
+			s = append(s, h)
+		}
+	}
 	sort.SliceStable(s, func(i, j int) bool { return s[i].Priority < s[j].Priority })
 	for i := 0; i < len(s); {
 		j := i
@@ -200,8 +210,20 @@ func (m *model) decide(h3Configured bool) (h3, notH3 bool) {
 	for _, rd := range m.Readings {
 		a, b := decide1(rd.Svc)
 		h3, notH3 = h3 || a, notH3 || b
+		// "usable": a record that gives no address (named target without address records; own name without
+		// addresses and without hints) cannot be dialled. Whether that makes it unusable for the choice the
+		// statement does not say: both ways of counting are accepted here, and T7 judges where a QUIC dial goes.
+		a, b = decideOver(rd.Svc, func(h *dohfake.HTTPS) bool { return !m.hasAddress(rd, h) })
+		h3, notH3 = h3 || a, notH3 || b
 	}
 	return
+}
+
+func (m *model) hasAddress(rd reading, h *dohfake.HTTPS) bool {
+	if !isRoot(h.Target) {
+		return len(addrsAt(m.z, h.Target)) > 0
+	}
+	return len(m.endAddrs(rd))+len(h.IPv4Hint)+len(h.IPv6Hint) > 0
 }
 
 func (m *model) listsH3Anywhere() bool {
@@ -279,12 +301,22 @@ func (m *model) allowed(mode string) (ok, incompatible apSet) {
 	ok, incompatible = apSet{}, apSet{}
 	for _, rd := range m.Readings {
 		n := len(ok)
+		reachable := false // a compatible record with an address record behind it (hints alone may be left unused)
 		for _, h := range rd.Svc {
 			if compatible(h, mode) {
 				m.recordTargets(rd, h, ok)
+				if isRoot(h.Target) && len(m.endAddrs(rd)) > 0 || !isRoot(h.Target) && len(addrsAt(m.z, h.Target)) > 0 {
+					reachable = true
+				}
 			}
 		}
-		if len(ok) == n {
+		if !reachable {
+			n = len(ok) // no compatible record can be dialled through address records: the fall-back below applies too
+		}
+		// The fall-back is the connection "as if no record existed" (RFC 9460 section 3): TCP to the origin's own
+		// addresses. There is no such thing for HTTP/3 - a QUIC dial is only ever justified by a record that offers
+		// h3, so its targets are the targets of those records and nothing else.
+		if len(ok) == n && mode != "h3" {
 			for _, a := range m.endAddrs(rd) {
 				for _, p := range m.fallbackPorts() {
 					ok[netip.AddrPortFrom(a, p)] = true
